@@ -260,6 +260,16 @@ def r5_value_untouched(ctx):
                 if c.split('::')[-1] == 'disable_recursion_limit':
                     bad.append(b.loc(bb, t))
     ctx.floor('C15.R5', 'serde_json calls in pavex (positive control)', uses, 2)
+    # a hand-driven serde_json::Deserializer must be asked whether anything is left after the value
+    ext = [b for b in ctx.fb.bodies(CR) if not b.is_promoted and b.nid.endswith('request::body::json::JsonBody::extract')]
+    if ctx.need('C15.R5', 'JsonBody::extract', ext):
+        b = ext[0]
+        de = [bb for bb, t in b.calls() if (callee(t) or '').startswith('serde_path_to_error::') and (callee(t) or '').endswith('::deserialize') or (callee(t) or '').endswith('Deserialize::deserialize')]
+        end = [bb for bb, t in b.calls() if (callee(t) or '').startswith('serde_json::de::Deserializer') and (callee(t) or '').endswith('::end')]
+        oks = [bb for bb, j, st in b.all_assigns() if st['lhs'] == {'l': 0} and st['rv']['k'] == 'agg' and st['rv'].get('var') == 'Ok']
+        ok = bool(de) and bool(end) and bool(oks) and all(b.dominates(end[0], o) for o in oks) and b.dominates(de[0], end[0])
+        ctx.ob('C15.R5', 'json-document-consumed-entirely', ok, b.loc(de[0]) if de else b.loc(),
+               'Deserializer::end() is called after the value was deserialized and dominates the Ok result: %s (otherwise `{..} trailing` is accepted as if it were `{..}`)' % ok)
     ctx.ob('C15.R5', 'json-recursion-limit-kept', not bad, bad[0] if bad else '',
            'serde_json::Deserializer::disable_recursion_limit is called %d time(s) in pavex (a body nested deeper than the stack aborts the process instead '
            'of yielding ExtractJsonBodyError)' % len(bad))
